@@ -286,7 +286,11 @@ CLAIMED = {
              "nested frames, returning or failing, to any depth — journal and revision list are exactly the old ones afterwards "
              "(C04_nested_frame_revert_restores_partial, SDBNested.lean), also when the body loads accounts for the first time, creates "
              "accounts (which are gone again afterwards) or calls CreateAccount: every read of every address answers as at the "
-             "snapshot (C04_any_frame_revert_restores_partial, SDBObs.lean); for transactions WITHOUT a precompile call, after any "
+             "snapshot (C04_any_frame_revert_restores_partial, SDBObs.lean); after ANY such transaction body — reverted frames included — "
+             "the StateDB is well-formed and Commit stores exactly the final view of every dirtied live account, removes the "
+             "self-destructed ones and leaves alone what no surviving journal entry dirtied (C04_commit_after_any_body_partial, "
+             "SDBWF.lean: an invariant on (state, journal) — reverting the journal entry by entry, every Revert finds what it needs — "
+             "monotone in an extension order on cached objects; induction over the nested body); earlier, for transactions WITHOUT a precompile call, after any "
              "write sequence Commit stores exactly the final view of every dirtied live account (nonce, code hash, whole-unibi balance, "
              "every slot), removes self-destructed ones and touches nothing else (C04_commit_*_partial, SDBCommit.lean, any number of "
              "accounts and slots); T1 fact: OnRunStart makes exactly three unconditional StateDB calls (cache context, journal entry, "
